@@ -159,6 +159,14 @@ func c14(p *Prog, r *Report) {
 					ok, diff = ok2, d2
 				}
 			}
+			if !ok && key == "ed25519:GenerateKey" {
+				// not the reference text: decide the construction on its terms
+				if ok2, d2 := generateKeySemantic(p, p.Func("~/ed25519.GenerateKey")); ok2 {
+					ok = true
+				} else {
+					diff += "; and on its terms: " + d2
+				}
+			}
 			pos := pr.fork + "/" + fork.fileOf[n]
 			if reason, div := c14Divergent[key]; div {
 				if ok {
